@@ -47,7 +47,10 @@ pub assume_specification<T: std::cmp::Ord + std::marker::Destruct> [std::cmp::ma
     ensures r == (if vstd::std_specs::cmp::OrdSpec::cmp_spec(&a, &b) is Greater { a } else { b });
 }
 verus! {
+// the oldest instant the platform can represent: checked_sub yields None only below it, and every Instant is above it
 pub uninterp spec fn inst_floor() -> int;
+#[verifier::external_body]
+pub proof fn inst_lower_bound(i: std::time::Instant) ensures inst(i) >= inst_floor() {}
 }
 verus! {
 pub assume_specification<T> [<[T]>::reverse] (s: &mut [T])
